@@ -567,7 +567,9 @@ fn build_ykh() {
         eprintln!("the ykh binary does not build from /repo:\n{}", String::from_utf8_lossy(&out.stderr));
         std::process::exit(3);
     }
-    eprintln!("ykh built in {:.1}s", t0.elapsed().as_secs_f64());
+    let log = String::from_utf8_lossy(&out.stderr);
+    let compiled: Vec<&str> = log.lines().filter(|l| l.trim_start().starts_with("Compiling")).map(|l| l.trim()).collect();
+    eprintln!("ykh built in {:.1}s ({})", t0.elapsed().as_secs_f64(), if compiled.is_empty() { "up to date".to_string() } else { compiled.join(", ") });
 }
 
 // ---------------------------------------------------------------------------------------------------------------
